@@ -64,12 +64,13 @@ Definition pol_pidzero : policy := [
      (GuardedMono: only ever assigned true, under launchMu).  Trusted conclusion: a Go either
      precedes the closing critical section in the lock order - and then happens-before the Wait -
      or observes the latch and is not executed. *)
+  (* The pair is stated WITHOUT function names ("*" on both sides): the justification above uses only the checked
+     preconditions (lock + path condition on the Go side, history fact on the Wait side), so moving the Go or the Wait
+     into a helper does not invalidate it - provided the history fact still reaches the Wait site, lexically or as a
+     certified entry fact of the helper (Race.cond_entry_failures). *)
   P "supervisor.PIDZero" "wg#addwait"
     (HBVia "launch-gate"
-       [mkHB "supervisor.PIDZero.launch" "supervisor.PIDZero.Shutdown$go1"
-             ["!$.launchClosed"] ["set:$.launchClosed"] [("supervisor.PIDZero.launchMu", Ex)] [];
-        mkHB "supervisor.PIDZero.launch" "supervisor.PIDZero.Shutdown"
-             ["!$.launchClosed"] ["set:$.launchClosed"] [("supervisor.PIDZero.launchMu", Ex)] []])
+       [mkHB "*" "*" ["!$.launchClosed"] ["set:$.launchClosed"] [("supervisor.PIDZero.launchMu", Ex)] []])
 ].
 
 (* --- lifecycle.StartStop: four plain fields, all under mu (Started re-makes the channels
@@ -111,9 +112,11 @@ Definition pol_composite : policy := [
   P "composite.Runner" "serverErrors"
     (HBVia "composite-initial-boot"
        (* the write in boot is excused only where it is lexically guarded by the Booting test *)
+       (* readers: Run (boot's caller, later in the same goroutine) and every context reached ONLY from boot
+          ("boot/*": the goroutines boot spawns after the write and the helpers they call, whatever their names) *)
        [mkHB "composite.Runner.boot" "composite.Runner.Run"
              ["$.fsm.GetState() == finitestate.StatusBooting"] [] [] [];
-        mkHB "composite.Runner.boot" "composite.Runner.startRunnable"
+        mkHB "composite.Runner.boot" "composite.Runner.boot/*"
              ["$.fsm.GetState() == finitestate.StatusBooting"] [] [] []]);
   P "composite.Runner" "genCancel" (GuardedBy "composite.Runner.runnablesMu");   (* added by /repo f0fcb2b *)
   P "composite.Runner" "genDone" (GuardedBy "composite.Runner.runnablesMu");     (* added by /repo f0fcb2b *)
@@ -161,8 +164,29 @@ Definition pol_httpcluster : policy := [
   P "httpcluster.serverEntry" "action" Immutable
 ].
 
+(* --- configuration values handed to the runners (audit M11: a new shared field here needs a policy decision).
+   httpserver.Config / httpserver.Route / composite.Config are built by their constructors and functional options and
+   are read-only afterwards: a runner stores a *Config in an atomic.Pointer and every goroutine reads through it, so a
+   write through a shared reference would be a race.  (httpserver.RequestProcessor is deliberately NOT tracked: it is
+   created per request and mutated by the one goroutine serving that request.) *)
+Definition pol_configs : policy := [
+  P "httpserver.Config" "ListenAddr" CtorOnly;
+  P "httpserver.Config" "DrainTimeout" CtorOnly;
+  P "httpserver.Config" "Routes" CtorOnly;
+  P "httpserver.Config" "ReadTimeout" CtorOnly;
+  P "httpserver.Config" "WriteTimeout" CtorOnly;
+  P "httpserver.Config" "IdleTimeout" CtorOnly;
+  P "httpserver.Config" "ServerCreator" CtorOnly;
+  P "httpserver.Config" "context" CtorOnly;
+  P "httpserver.Route" "name" CtorOnly;
+  P "httpserver.Route" "Path" CtorOnly;
+  P "httpserver.Route" "Handlers" CtorOnly;
+  P "composite.Config" "Name" CtorOnly;
+  P "composite.Config" "Entries" CtorOnly
+].
+
 Definition policy_all : policy :=
-  pol_pidzero ++ pol_lifecycle ++ pol_machine ++ pol_composite ++ pol_httpserver ++ pol_httpcluster.
+  pol_pidzero ++ pol_lifecycle ++ pol_machine ++ pol_composite ++ pol_httpserver ++ pol_httpcluster ++ pol_configs.
 
 (* Fields whose policy the CURRENT tree is known to violate (each one a recorded finding in
    /verif/known_findings.txt with key race:<struct>.<field>).  The theorem C17_table_ok is stated
